@@ -5,6 +5,7 @@ import (
 	"reflect"
 	"strings"
 
+	"github.com/moov-io/iso8583/encoding"
 	"github.com/moov-io/iso8583/field"
 )
 
@@ -286,7 +287,7 @@ func init() {
 			// so the id path continues with its tag
 			for _, rg := range ranges {
 				cf, ok := fields[rg.id].(*field.Composite)
-				if !ok || cf.Spec().Tag == nil || cf.Spec().Tag.Enc == nil || cf.Spec().Bitmap != nil {
+				if !ok {
 					continue
 				}
 				func() {
@@ -297,12 +298,7 @@ func init() {
 						return
 					}
 					bodyStart := rg.end - len(body)
-					subs := cf.GetSubfields()
-					var tags []string
-					for t := range subs {
-						tags = append(tags, t)
-					}
-					sp.Tag.Sort(tags)
+					_ = sp
 					var prior []*Sx
 					for _, pr := range ranges {
 						if pr.id == rg.id {
@@ -318,25 +314,42 @@ func init() {
 					emitted := 0
 					var walk func(c *field.Composite, bodyStart int, path []string)
 					walk = func(c *field.Composite, bodyStart int, path []string) {
+						// all three modes (round 8, C19-i): tagged composites carry the encoded tag before each subfield,
+						// positional ones nothing, bitmapped ones their fixed bitmap first and then the subfields in id order
 						csp := c.Spec()
-						if csp.Tag == nil || csp.Tag.Enc == nil || csp.Bitmap != nil {
-							return
-						}
 						csubs := c.GetSubfields()
 						var tags []string
 						for t := range csubs {
 							tags = append(tags, t)
 						}
-						csp.Tag.Sort(tags)
 						pos := bodyStart
-						for _, t := range tags {
-							tb := []byte(t)
-							if csp.Tag.Pad != nil {
-								tb = csp.Tag.Pad.Pad(tb, csp.Tag.Length)
+						if csp.Bitmap != nil {
+							tags = refSort("ByInt", tags)
+							w := csp.Bitmap.Spec().Length
+							if w == 0 {
+								w = 8
 							}
-							tw, err := csp.Tag.Enc.Encode(tb)
-							if err != nil {
-								return
+							if csp.Bitmap.Spec().Enc == encoding.BytesToASCIIHex {
+								w *= 2
+							}
+							pos += w
+						} else if csp.Tag != nil && csp.Tag.Sort != nil {
+							csp.Tag.Sort(tags)
+						} else {
+							return
+						}
+						for _, t := range tags {
+							var tw []byte
+							if csp.Bitmap == nil && csp.Tag.Enc != nil {
+								tb := []byte(t)
+								if csp.Tag.Pad != nil {
+									tb = csp.Tag.Pad.Pad(tb, csp.Tag.Length)
+								}
+								var err error
+								tw, err = csp.Tag.Enc.Encode(tb)
+								if err != nil {
+									return
+								}
 							}
 							sub := csubs[t]
 							sp2, err := sub.Pack()
